@@ -59,21 +59,25 @@ def gen_case(rng, max_len, max_segs):
     return ops
 
 
-def exhaustive_cases(limit):
-    """all arrival orders of the pieces of every composition of a short stream, at boundary ISNs"""
+def exhaustive_cases(limit, L=6, maxsegs=4, isns=(0, 2**31 - 3, 2**32 - 3, 2**32 - 6), recut=False):
+    """all arrival orders of the pieces of every composition of a short stream plus one extra segment (a duplicate
+    of the first piece and, with `recut`, a retransmission with different boundaries that straddles the pieces),
+    at boundary ISNs (the stream crosses 2^31 resp. 2^32)"""
     import itertools
     out = []
-    s = bytes(range(1, 7))
-    for isn in [0, 2**31 - 3, 2**32 - 3, 2**32 - 6]:
-        for cutmask in range(2 ** 5):
-            cuts = [0] + [i + 1 for i in range(5) if cutmask >> i & 1] + [6]
+    s = bytes(range(1, L + 1))
+    for isn in isns:
+        for cutmask in range(2 ** (L - 1)):
+            cuts = [0] + [i + 1 for i in range(L - 1) if cutmask >> i & 1] + [L]
             segs = [(a, b - a) for a, b in zip(cuts, cuts[1:])]
-            if len(segs) > 4:
+            if len(segs) > maxsegs:
                 continue
-            for perm in itertools.permutations(segs + [segs[0]]):
-                out.append([f"init {isn} {hexs(s)}"] + [f"seg {(isn + a) % 2**32} {hexs(s[a:a+l])} @{a}" for a, l in perm])
-                if len(out) >= limit:
-                    return out
+            extras = [segs[0]] + ([(1, L - 2)] if recut and L > 3 else [])
+            for extra in extras:
+                for perm in itertools.permutations(segs + [extra]):
+                    out.append([f"init {isn} {hexs(s)}"] + [f"seg {(isn + a) % 2**32} {hexs(s[a:a+l])} @{a}" for a, l in perm])
+                    if len(out) >= limit:
+                        return out
     return out
 
 
@@ -196,7 +200,11 @@ def run(chk):
         return
     rng = random.Random(chk.seed)
     ncases = 6000 if chk.tier == "quick" else 40000
-    cases = list(exhaustive_cases(400 if chk.tier == "quick" else 10**6))
+    if chk.tier == "quick":
+        cases = list(exhaustive_cases(400))
+    else:
+        cases = list(exhaustive_cases(10**6)) + \
+            list(exhaustive_cases(10**6, L=7, maxsegs=5, isns=(1, 2**31 - 1, 2**32 - 1, 2**32 - 4), recut=True))
     for i in range(ncases):
         big = (i % 50 == 0)
         cases.append(gen_case(rng, 4096 if big else 48, 40 if big else 9))
@@ -213,8 +221,8 @@ def run(chk):
     if chk.tier == "thorough":
         # streams up to 64 KiB with up to 400 segments (the oracle slices the stream per buffered chunk per
         # operation, so these are few: about 30 s of oracle time for each stream above 32 KiB)
-        for c in range(2):
-            big = [gen_case(rng, 65535, 400) for _ in range(10)]
+        for c in range(3):
+            big = [gen_case(rng, 65535, 400) for _ in range(12)]
             for name, _, start, conv in HARNESSES:
                 ops = []
                 for cs in (big if name == "c06_tracker" else big[:4]):
